@@ -55,7 +55,7 @@ def check(prog, run):
     if seqsig:
         run.rule("R-order", "reference/roving split: references in listed order, roving channels ascending; global rows = references, then each "
                  "setup's roving rows in setup order", 2)
-        seqsig.order_obligations(prog, run, "R-order", which=("pre", "ssi_ms", "reflists"))
+        seqsig.order_obligations(prog, run, "R-order", which=("pre", "ssi_ms", "reflists", "split_current"))
 
 
 def hd_elem(v):
